@@ -6,6 +6,7 @@ import warnings
 
 import pymbolic.primitives as p
 
+from ..c04_streams import CachedArgsStream, ForeignRegistryStream
 from ..core import Failure, Prop, Stream
 from ..gen import ExprGen, node_types, size
 from ..oracles import scan
@@ -1184,7 +1185,8 @@ def extract(ctx=None):
 
 def extract_dispatch(ctx=None):
     """T-gen: `Mapper.__call__` / `Mapper.rec_fallback` statement by statement, `rec = __call__`,
-    and the body of `Collector.combine` / `CombineMapper.combine` (lean/PV/Generated/Dispatch.lean)"""
+    the body of `Collector.combine` / `CombineMapper.combine`, `Mapper.map_foreign` test by test (what
+    each test refers to) and the registry functions of primitives.py (lean/PV/Generated/Dispatch.lean)"""
     from extract.dispatch import extract_dispatch as ex
     return ex(ctx)
 
@@ -1195,13 +1197,17 @@ PROP = Prop(
     lean_targets=["PV.Properties.C04"],
     extractors=[extract, extract_dispatch],
     streams=[WalkStream(), CombineStream(), DispatchStream(), NamesStream(), FieldsStream(),
-             CallbackStream(), DispatchHistoryStream(), CollectorHistoryStream()],
+             CallbackStream(), DispatchHistoryStream(), CollectorHistoryStream(),
+             ForeignRegistryStream(), CachedArgsStream()],
     probes=[probes],
     trusted_base=["Lean 4.33 kernel; axioms propext, Classical.choice, Quot.sound only",
                   "harness/props/c04.py (instrumented mapper subclasses, dynamic class hierarchies)",
                   "extract/traversal.py (ast reader of the map_* handlers; unknown shapes are errors)",
-                  "extract/dispatch.py (ast reader of Mapper.__call__ / rec_fallback / combine; the "
-                  "meaning of its statement language = lean/PV/Model/DispatchTable.lean `dRun`)"],
+                  "extract/dispatch.py (ast reader of Mapper.__call__ / rec_fallback / combine / "
+                  "map_foreign and of the registry functions of primitives.py; the meaning of its "
+                  "statement languages = lean/PV/Model/DispatchTable.lean `dRun`, "
+                  "lean/PV/Model/ForeignTable.lean `fRun`)",
+                  "harness/c04_streams.py (registry sandbox, instrumented plain / memoizing traversals)"],
     level_text="Lean theorems (all class hierarchies, handler sets, trees, argument tuples): dispatch "
                "reaches the node's own handler, else the nearest ancestor's the mapper implements, "
                "else the unsupported hook; foreign objects go to their handlers (dispatch_nearest, "
@@ -1214,14 +1220,21 @@ PROP = Prop(
                "regenerated from the source on every run and proved to be what the models implement "
                "(walk/combineL/substM_table_step_current + *_unique_current, fields_once_current, "
                "dispatch_call/fallback/foreign_eq_table_current, dispatch_nearest_table_current, "
-               "collector_combine_current).",
+               "collector_combine_current). Mapper.map_foreign is read test by test together with "
+               "what each test refers to, and register_/unregister_constant_class statement by "
+               "statement: the regenerated chain routes an object by its kind under the registry of "
+               "number classes AT CALL TIME, for every history of registrations "
+               "(foreign_chain_eq_table_current, foreign_history_current).",
     level_note="Trusted: Lean kernel; the readers extract/traversal.py, extract/dispatch.py and the "
                "meaning of their table languages (tied by correspondence streams); instrumented "
                "mapper subclasses of the harness. multivector / numpy / polynomial handlers are "
                "covered only by whole-table checks (rows_ok, fields_once), not by a traversal model; "
                "CachedMapper.__call__ is tied through C05's extractor and the dispatch stream. "
                "History streams (several mapper classes in one process in a chosen order; one "
-               "collector instance over trees sharing subtrees) are correspondence/oracle only.",
+               "collector instance over trees sharing subtrees; the memoizing stock traversals "
+               "under histories of argument values) are correspondence/oracle only; the run-time "
+               "registry of number classes is modelled by class NAMES (isinstance on the real "
+               "classes is done by the harness).",
     technique="Lean 4 proofs about dispatch and traversal models + tables and dispatch code regenerated "
               "from source with interpreter-equals-model theorems + differential correspondence with "
               "instrumented mappers (single calls and histories)",
